@@ -93,18 +93,23 @@ def user_elem(u, attr):
     if k == 'inherit':   # paint inherited from the parent group: resolved with the shape's own box
         return '', ('<g %s><rect id="%s" x="%s" y="%s" width="%s" height="%s"/></g>' % (attr, uid, fs(x), fs(y), fs(w), fs(h)))
     if k == 'marker':
-        return ('<marker id="mk_%s" markerUnits="userSpaceOnUse" markerWidth="16" markerHeight="16" refX="8" refY="8" overflow="visible">'
-                '<rect width="16" height="16" fill="context-fill" stroke="none"/></marker>' % uid,
-                '<path id="%s" d="M %s %s L %s %s L %s %s Z" marker-start="url(#mk_%s)" %s/>'
-                % (uid, fs(x), fs(y), fs(x + w), fs(y), fs(x), fs(y + h), uid, attr))
+        # a curved outline whose control point lies outside the tight box: the context box of the marker content must be
+        # the path's tight bounding box (the one its own fill is resolved with), not the box of the control points
+        return ('<marker id="mk_%s" markerUnits="userSpaceOnUse" markerWidth="24" markerHeight="24" refX="12" refY="12" overflow="visible">'
+                '<rect width="24" height="24" fill="context-fill" stroke="none"/></marker>' % uid,
+                '<path id="%s" d="M %s %s Q %s %s %s %s L %s %s L %s %s Z" marker-start="url(#mk_%s)" marker-end="url(#mk_%s)" %s/>'
+                % (uid, fs(x), fs(y + h), fs(x + w / 2), fs(y - h), fs(x + w), fs(y + h), fs(x + w), fs(y + 2 * h), fs(x), fs(y + 2 * h), uid, uid, attr))
     raise ValueError(k)
 
 
 def exact_box(u):
     """bounding box of the user when it is known exactly, else None (text, use: read from the dump)"""
     k = u['kind']
-    if k in ('rect', 'path', 'marker', 'inherit'):
+    if k in ('rect', 'path', 'inherit'):
         return [u['x'], u['y'], u['w'], u['h']]
+    if k == 'marker':
+        # M (x, y+h) Q (x+w/2, y-h) (x+w, y+h): the curve peaks at y + h - h = y (t = 1/2: (y+h)/4 + (y-h)/2 + (y+h)/4 = y)
+        return [u['x'], u['y'], u['w'], 2 * u['h']]
     if k == 'line':
         return [u['x'], u['y'], u['w'], Fraction(0)]
     if k == 'group':
@@ -142,6 +147,11 @@ def gen_def(rng, kind):
                      rng.choice([Fraction(1, 4), Fraction(1, 2), Fraction(3, 8)]), rng.choice([Fraction(1, 4), Fraction(1, 2)])]
         d['cu'] = rng.choice(['user', 'obb'])
         d['vb'] = rng.choice([None, None, '0 0 20 10', '0 0 8 8'])
+        # patternUnits of both kinds: a user-space tile with objectBoundingBox content (and a viewBox) is resolved too
+        d['units'] = rng.choice(['obb', 'obb', 'user'])
+        if d['units'] == 'user':
+            d['rect'] = [Fraction(rng.choice([0, 2, -3])), Fraction(rng.choice([0, 1])), Fraction(rng.choice([24, 16, 12])), Fraction(rng.choice([16, 10]))]
+            d['cu'] = 'obb' if rng.below(4) else 'user' 
         d['par'] = rng.choice(['', 'none', 'xMinYMax slice'])
     elif kind == 'clip':
         d['shape'] = rng.choice(['rect', 'circle'])
@@ -185,7 +195,10 @@ def def_markup_A(rng, d):
         return '<%s id="d"%s%s>%s</%s>' % (tag, coords, ts_attr('gradientTransform', t), STOPS, tag)
     if k == 'pattern':
         r = d['rect']
-        a = ' x="%s" y="%s" width="%s" height="%s"' % tuple(frac_attr(rng, v) for v in r)
+        if d.get('units') == 'user':
+            a = ' patternUnits="userSpaceOnUse" x="%s" y="%s" width="%s" height="%s"' % tuple(fs(v) for v in r)
+        else:
+            a = ' x="%s" y="%s" width="%s" height="%s"' % tuple(frac_attr(rng, v) for v in r)
         a += ts_attr('patternTransform', t)
         if d['cu'] == 'obb':
             a += ' patternContentUnits="objectBoundingBox"'
@@ -287,7 +300,7 @@ def def_markup_B(d, i, B):
         sm = ' spreadMethod="reflect"' if d['href'] else ''
         return '<%s id="d%d" gradientUnits="userSpaceOnUse"%s%s gradientTransform="%s %s">%s</%s>' % (tag, i, coords, sm, bm, t, STOPS, tag)
     if k == 'pattern':
-        r = mapped(d['rect'], B)
+        r = mapped(d['rect'], B) if d.get('units') != 'user' else d['rect']
         a = ' patternUnits="userSpaceOnUse" x="%s" y="%s" width="%s" height="%s"' % tuple(fs(v) for v in r) + ts_attr('patternTransform', t)
         content = pattern_content(d)
         if d['vb']:
@@ -351,8 +364,17 @@ def ref_markup(d, u, target):
     return '%s="url(#%s)"%s' % (REF_ATTR[k], target, extra)
 
 
+def box_free(d):
+    """a definition in which nothing is objectBoundingBox: the element's box plays no role (also when it is empty)"""
+    return d['kind'] == 'pattern' and d.get('units') == 'user' and d['cu'] == 'user'
+
+
 def fallback_markup(d, u):
     """what an element with an empty box must look like in the hand-mapped document"""
+    if d['kind'] == 'pattern' and d.get('units') == 'user':
+        # user-space tile with objectBoundingBox content: the unit test at parse time passes, the post-pass cannot
+        # resolve the content and removes the paint (element not rendered; the fallback colour is not used)
+        return 'fill="none" stroke="none"'
     if d['kind'] in ('lg', 'rg', 'pattern'):
         return 'fill="none" stroke="#008000" stroke-width="4"'
     return 'display="none"'
@@ -372,7 +394,10 @@ def doc_B(d, users, boxes):
     defs = ''
     body = ''
     for i, (u, B) in enumerate(zip(users, boxes)):
-        if B is None or B[2] <= 0 or B[3] <= 0:
+        if box_free(d) and B is not None:
+            defs += def_markup_B(d, i, B)
+            dm, em = user_elem(u, ref_markup(d, u, 'd%d' % i))
+        elif B is None or B[2] <= 0 or B[3] <= 0:
             dm, em = user_elem(u, fallback_markup(d, u))
         else:
             defs += def_markup_B(d, i, B)
@@ -732,7 +757,7 @@ def run(ctx):
                     a, b = user_paint(u, na), user_paint(u, nb)
                 else:
                     a, b = user_group_def(u, na, kind), user_group_def(u, nb, kind)
-                if not nonzero(B):
+                if not nonzero(B) and not box_free(d):
                     # empty box: fallback paint / element not rendered; never a definition resolved with a degenerate box
                     ok = True
                     if kind in ('lg', 'rg', 'pattern'):
@@ -753,6 +778,10 @@ def run(ctx):
                 xa, xb = def_numbers(kind, a), def_numbers(kind, b)
                 if (xa is None) != (xb is None) or (xa is not None and not lists_close(xa, xb)):
                     probs.append((u['id'], u['kind'], xa, xb))
+        if kind in ('lg', 'rg', 'pattern') and any(u['kind'] == 'marker' for u in users):
+            pa_, pb_ = all_paint_numbers(c['A']), all_paint_numbers(tb)
+            if len(pa_) != len(pb_) or any(not lists_close(x, y) for x, y in zip(pa_, pb_)):
+                probs.append(('marker', 'paints of the marker content (context-fill)', pa_[:4], pb_[:4]))
         # distinct definition objects carry distinct ids (every user has its own resolution under its own id)
         if kind != 'nested':
             seen_ids = {}
@@ -825,7 +854,8 @@ def run(ctx):
                     obs_ct = '(Some %s)' % fts(ct) if ct else 'None'
                 else:
                     obs_rect, obs_ct = 'None', 'None'
-                p_items.append('(ObjectBoundingBox, %s, %s, %s, %s)' % (frect(d['rect']), frect(B), obs_rect, obs_ct))
+                p_items.append('(%s, %s, %s, %s, %s)' % ('UserSpaceOnUse' if d.get('units') == 'user' else 'ObjectBoundingBox',
+                                                         frect(d['rect']), frect(B), obs_rect, obs_ct))
                 p_idx.append(ci)
         elif kind == 'clip':
             if all(u['kind'] in ('rect', 'path', 'group', 'line') for u in users):
@@ -951,6 +981,24 @@ def run(ctx):
         "document vs the same definitions rewritten per element in userSpaceOnUse with coordinates mapped through the element's box.  "
         "correspondence: the dumped resolved definitions (ids, transforms, regions) vs Model/Obb.v evaluated in Coq.  Non-trivial = the "
         "rendering is not blank; distinct by document text.")
+
+
+def all_paint_numbers(tree):
+    """transform (+ rect) of every gradient / pattern used by a path of the main tree, in document order"""
+    out = []
+
+    def rec(n):
+        if n['t'] == 'g':
+            for c in n['children']:
+                rec(c)
+        elif n['t'] == 'path':
+            for key in ('fill', 'stroke'):
+                f = n.get(key)
+                if f and f['paint'].get('k') in ('lg', 'rg', 'pattern'):
+                    d = f['paint']['def']
+                    out.append(list(d['ts']) + list(d.get('rect', [])))
+    rec(tree['root'])
+    return out
 
 
 def pixel_safe(d, boxes):
